@@ -123,6 +123,9 @@ func (w *World) Paths(fn *ssa.Function) ([]*Path, error) {
 		return p, w.pathErr[fn]
 	}
 	t0 := time.Now()
+	if os.Getenv("GMARSLINT_TIMING") == "all" {
+		fmt.Fprintf(os.Stderr, "exploring: %s\n", fn)
+	}
 	p, err := ExplorePaths(w, fn)
 	if os.Getenv("GMARSLINT_TIMING") == "all" || os.Getenv("GMARSLINT_TIMING") != "" && time.Since(t0) > 200*time.Millisecond {
 		fmt.Fprintf(os.Stderr, "timing: budget=%d %s %d paths %v\n", w.inlBudget, fn.Name(), len(p), time.Since(t0))
